@@ -253,6 +253,15 @@ func (c *Conn) serve() {
 }
 
 func (c *Conn) pushFramesLoop() {
+	// failf panics on this goroutine too (e.g. unsupported pixel format);
+	// confine the failure to this connection like serve() does.
+	defer func() {
+		if e := recover(); e != nil {
+			log.Debugf("Client disconnect: %v", e)
+			c.c.Close()
+		}
+	}()
+
 	for {
 		select {
 		case ur, ok := <-c.fbupc:
